@@ -27,4 +27,4 @@ echo "--- demo WITHOUT the patch (must pass):" | tee -a "$DST/demo.txt"
 ( cd "$SCR" && go test -vet=off -count=1 -tags seeddemo ./SEED/ 2>&1 | tail -4 ) | tee -a "$DST/demo.txt"
 git -C /repo worktree remove --force "$SCR"
 echo "--- checks:"
-/verif/tools/mutant.sh "$DST/patch.diff" "$@" | tee "$DST/checks.txt"
+/verif/tools/iso_check.sh "$DST/patch.diff" "$@" | tee "$DST/checks.txt"
